@@ -22,7 +22,8 @@ pub mod sim_disc;
 pub mod lease;
 pub mod qosx;
 pub mod wiregen;
-// pub mod plcdr;
+#[cfg(not(feature = "security"))]
+pub mod plcdr;
 // pub mod hostile;
 pub mod sched_bodies;
 
